@@ -160,15 +160,30 @@ def run(ctx):
         ths = [theta(kind, D, rng) for _ in range(3)]
         for t_ in ths:
             hs.add_theta(t_)
+        held = []         # results of earlier calls stay what they were, whatever is computed afterwards (no shared buffers)
+        scr2 = screen_of([rows[i] for i in perm], arity, [plates[i] for i in perm])
         for helper, single in ((MM.predict_mean_all, "predict_conditional_mean"), (MM.predict_viability_all, "predict_viability"), (MM.predict_variance_all, "predict_conditional_variance")):
             st, m = outcome(helper, scr, hs)
+            if st == "ok":
+                held.append((helper.__name__, m, np.ascontiguousarray(m).tobytes()))
+                st2, m2 = outcome(helper, scr2, hs)          # same shape, other rows
+                if st2 == "ok":
+                    held.append((helper.__name__, m2, np.ascontiguousarray(m2).tobytes()))
             if st != "ok" or m.shape != (3, scr.size) or any(np.ascontiguousarray(m[i]).tobytes() != np.asarray(getattr(ths[i], single)(scr), dtype=float).tobytes() for i in range(3)):
                 ctx.violation("%s does not return one row per sample in holder order" % helper.__name__, {"kind": "helper", "helper": helper.__name__, "seed": ctx.seed})
         for helper, single in ((MM.predict_mean_avg, "predict_conditional_mean"), (MM.predict_viability_avg, "predict_viability")):
             st, a = outcome(helper, scr, hs)
+            if st == "ok":
+                held.append((helper.__name__, a, np.ascontiguousarray(a).tobytes()))
+                outcome(helper, scr2, hs)
             want = np.mean([getattr(t_, single)(scr) for t_ in ths], axis=0)
             if st != "ok" or a.shape != (scr.size,) or not np.allclose(a, want, rtol=1e-12, atol=1e-15):
                 ctx.violation("%s is not the mean over the samples" % helper.__name__, {"kind": "helper", "helper": helper.__name__, "seed": ctx.seed})
+        for name, arr, before in held:
+            if np.ascontiguousarray(arr).tobytes() != before:
+                ctx.violation("the array returned by an earlier call of %s changed when a later prediction was computed" % name,
+                              {"kind": "helper", "helper": name, "seed": ctx.seed})
+                break
     bad = validate(ctx, "TraceFunctional", traces, decide=None, next_="TNext", init="TInit",
                    constants={"Keys": {0}, "Outs": {0}, "Globs": {0}, "CheckGlobal": False})
     for i, clause in bad[:3]:
